@@ -41,6 +41,8 @@ type hookCase struct {
 	Extra int `json:"extra,omitempty"`
 	// Prior: an earlier call on the same client and the same hooks (success | ioerr); only the judged call's hook calls are compared
 	Prior string `json:"prior,omitempty"`
+	// PriorShape: the earlier call's request: "" same as Req | "short" (FC17, the shortest frame) | "long" (FC16 with 100 registers)
+	PriorShape string `json:"prior_shape,omitempty"`
 }
 
 func scenario(c hookCase) (cli.Scenario, []byte, error) {
@@ -96,8 +98,10 @@ func scenario(c hookCase) (cli.Scenario, []byte, error) {
 		ev = append(ev, xport.Event{Kind: "eof", N: 0})
 	}
 	ev = append(ev, xport.Event{Kind: "ioerr", N: 0}) // backstop
-	return cli.Scenario{Kind: c.Kind, Req: c.Req, Stream: reply[:n], Events: ev, ReadTimeoutMs: 5000, CustomParse: c.CustomParse, Prior: c.Prior}, reply, nil
+	return cli.Scenario{Kind: c.Kind, Req: c.Req, Stream: reply[:n], Events: ev, ReadTimeoutMs: 5000, CustomParse: c.CustomParse, Prior: c.Prior, PriorReq: priorReq(c)}, reply, nil
 }
+
+func priorReq(c hookCase) *spec.Req { return cli.PriorShapeReq(c.PriorShape) }
 
 func outcomeText(o cli.Outcome) string {
 	s := ""
@@ -286,6 +290,7 @@ func genHook(t *rapid.T, kinds []string) hookCase {
 	}
 	if rapid.IntRange(0, 3).Draw(t, "with_prior") == 0 {
 		c.Prior = rapid.SampledFrom([]string{"success", "ioerr"}).Draw(t, "prior")
+		c.PriorShape = rapid.SampledFrom(cli.PriorShapes).Draw(t, "prior_shape")
 	}
 	return c
 }
